@@ -91,4 +91,4 @@ package fusemanager
 //@   props C17
 //@   requires held(fm.lock)
 //@   requires fm.status == FuseManagerReady
-//@   assert[C17] before "err := json.Unmarshal(v, mi)" : fresh(mi)
+//@   assert[C17] before "json.Unmarshal(v, mi)" : fresh(mi)
